@@ -45,6 +45,7 @@ type suspect struct {
 	Case   mon.Case
 	Data   caseData
 	Stage  string
+	Notes  []string
 	Fatal  fatalInfo
 	Stderr string
 	Exit   string
@@ -56,6 +57,7 @@ type checker struct {
 	// filled by AfterBatch for the case the process died in, consumed by handle
 	lastKey    string
 	lastStage  string
+	lastNotes  []string
 	lastStderr string
 
 	suspects []suspect
@@ -66,14 +68,42 @@ type checker struct {
 	crashed  map[string][]int // deep shape -> depths that crashed (confirmed)
 	okDeep   map[string][]int // deep shape -> depths that ran to the end
 	sigs     map[string]int   // every violation signature of this run -> count (mon prints only the first 25 violations)
+	pending  *[]pendingViolation
 }
 
+type pendingViolation struct {
+	sig, detail string
+	replay      any
+}
+
+// violation buffers a violation. mon keeps witnesses for the first 25 violations of a run only, so they
+// are handed over at the end in an order that gives every distinct signature its witness first.
 func (k *checker) violation(sig, detail string, replay any) {
-	if k.sigs == nil {
-		k.sigs = map[string]int{}
-	}
 	k.sigs[sig]++
-	k.d.Violation(sig, detail, replay)
+	if k.sigs[sig] <= 3 {
+		*k.pending = append(*k.pending, pendingViolation{sig, detail, replay})
+	} else {
+		*k.pending = append(*k.pending, pendingViolation{sig, "", nil})
+	}
+}
+
+func (k *checker) flushViolations() {
+	pend := *k.pending
+	*k.pending = nil
+	sort.SliceStable(pend, func(i, j int) bool { return pend[i].sig < pend[j].sig })
+	seen := map[string]int{}
+	var later []pendingViolation
+	for _, v := range pend {
+		seen[v.sig]++
+		if seen[v.sig] == 1 {
+			k.d.Violation(v.sig, v.detail, v.replay)
+		} else {
+			later = append(later, v)
+		}
+	}
+	for _, v := range later {
+		k.d.Violation(v.sig, v.detail, v.replay)
+	}
 }
 
 func (k *checker) summary() {
@@ -93,7 +123,7 @@ func (k *checker) summary() {
 }
 
 func (k *checker) afterBatch(dir string, cases []mon.Case) {
-	k.lastKey, k.lastStage, k.lastStderr = "", "", ""
+	k.lastKey, k.lastStage, k.lastStderr, k.lastNotes = "", "", "", nil
 	b, err := os.ReadFile(filepath.Join(dir, "stderr.txt"))
 	if err != nil || len(b) == 0 {
 		return
@@ -104,10 +134,17 @@ func (k *checker) afterBatch(dir string, cases []mon.Case) {
 	k.lastStderr = string(b)
 	sb, _ := os.ReadFile(filepath.Join(dir, stagesFile))
 	lines := strings.Split(strings.TrimSpace(string(sb)), "\n")
-	if n := len(lines); n > 0 {
-		f := strings.SplitN(lines[n-1], " ", 2)
-		if len(f) == 2 {
-			k.lastKey, k.lastStage = f[0], f[1]
+	// the last lines of the stage log belong to the case the process died in: "<key> <stage>" and "<key> #<note>"
+	for i := len(lines) - 1; i >= 0; i-- {
+		f := strings.SplitN(lines[i], " ", 2)
+		if len(f) != 2 || k.lastKey != "" && f[0] != k.lastKey {
+			break
+		}
+		k.lastKey = f[0]
+		if strings.HasPrefix(f[1], "#") {
+			k.lastNotes = append(k.lastNotes, f[1][1:])
+		} else if k.lastStage == "" {
+			k.lastStage = f[1]
 		}
 	}
 }
@@ -164,6 +201,7 @@ func (k *checker) handle(c mon.Case, res mon.Result) {
 		}
 		if k.lastKey == c.ID {
 			s.Stage = k.lastStage
+			s.Notes = k.lastNotes
 		}
 		s.Fatal = parseFatal(s.Stderr)
 		k.suspects = append(k.suspects, s)
@@ -286,9 +324,24 @@ func (s *suspect) inconclusiveReason() string {
 	return ""
 }
 
+// inputClass names the class of the input in a fatal signature: scripts and nesting cases carry it from
+// their construction; for arbitrary sources (token soup, mutated programs, snippets) that died in a
+// natively recursive operation on data, it is what the worker observed about the returned value
+// (cyclic / deep) or, when the data was not returned, "data-built-by-the-script".
 func (s *suspect) inputClass() string {
 	if s.Data.InputClass != "" {
 		return s.Data.InputClass
+	}
+	for _, n := range s.Notes {
+		switch n {
+		case "shape=cyclic":
+			return "cyclic-data"
+		case "shape=deep":
+			return "deep-data"
+		}
+	}
+	if s.Fatal.Kind == "stack-overflow" && strings.HasPrefix(recursionClass(s.Fatal.Repeating), "object.") {
+		return "data-built-by-the-script"
 	}
 	return s.Data.Family
 }
@@ -330,10 +383,10 @@ func drive(d *mon.Driver, replay string) int {
 		"scripts run under a VirtualOS without mounts whose exit handler records os.exit; the globals exec, http, net, dns, fetch are removed (external commands and explicit exit are excluded by the statement; the network is kept out of a check)",
 		"the embedding API is exercised as: risor.NewConfig, parser.Parse, compiler.Compile, risor.Eval / EvalCode / Call, Error() / FriendlyErrorMessage() / the ParserError accessors of every returned error (and of what it wraps), Inspect() / Interface() of every returned value",
 		fmt.Sprintf("screening runs limit the native stack to %d MB so that an unbounded native recursion dies fast; a dead worker is only reported after the case died again alone under Go's default 1 GB limit", screenStack>>20),
-		"memory exhaustion by data size is excluded: value sizes are capped, a worker that exceeds 5 GB of live heap or is killed is inconclusive; a per-case watchdog (20 s, 60 s for the deep-nesting and deep-data cases) makes hangs inconclusive",
+		"memory exhaustion by data size is excluded: value sizes are capped, a worker that exceeds 5 GB of live heap or is killed is inconclusive; a per-case watchdog (10 s, 30 s for the deep-nesting and deep-data cases) makes hangs inconclusive",
 		"a crash that needs a race between script threads (concurrent map access) is only reported when it repeats in the confirmation run",
 	}
-	k := &checker{d: d, samples: map[string]int{}, perFam: map[string]int{}, crashed: map[string][]int{}, okDeep: map[string][]int{}, sigs: map[string]int{}}
+	k := &checker{d: d, samples: map[string]int{}, perFam: map[string]int{}, crashed: map[string][]int{}, okDeep: map[string][]int{}, sigs: map[string]int{}, pending: &[]pendingViolation{}}
 
 	if replay != "" {
 		var cd caseData
@@ -500,7 +553,10 @@ func drive(d *mon.Driver, replay string) int {
 		src, class, icls := s.render()
 		nScript++
 		ss := s
-		p.add("script", caseData{Src: &src, Class: class, InputClass: icls, Script: &ss, Conc: nScript%4 != 0, Direct: nScript%5 == 0, DeadlineMS: dl})
+		// Interface() of a returned cyclic value is one known way to die; most bulk scripts that handle cyclic
+		// values skip that call so that they do not all end there (the dedicated cases keep it)
+		noIface := strings.Contains(icls, "cyclic") && nScript%10 != 0
+		p.add("script", caseData{Src: &src, Class: class, InputClass: icls, Script: &ss, Conc: nScript%4 != 0, Direct: nScript%5 == 0, DeadlineMS: dl, NoIface: noIface})
 		flush(scrOpts, false)
 	}
 	for ci := range calls {
@@ -510,12 +566,12 @@ func drive(d *mon.Driver, replay string) int {
 			addScript(scriptSpec{Call: c, Args: []string{id}, Depth: depth, Variant: (ci + vi) % 2}, 400)
 		}
 	}
-	n2 := d.N(12000, 400000)
+	n2 := d.N(12000, 250000)
 	for i := 0; i < n2; i++ {
 		c := &calls[rs.Intn(len(calls))]
 		addScript(scriptSpec{Call: c, Args: []string{mon.Pick(rs, ids), mon.Pick(rs, ids)}, Depth: depth, Variant: i % 2}, 400)
 	}
-	n3 := d.N(6000, 300000)
+	n3 := d.N(6000, 150000)
 	for i := 0; i < n3; i++ {
 		c := &calls[rs.Intn(len(calls))]
 		addScript(scriptSpec{Call: c, Args: []string{mon.Pick(rs, ids), mon.Pick(rs, ids), mon.Pick(rs, ids)}, Depth: depth, Variant: i % 2}, 400)
@@ -528,14 +584,14 @@ func drive(d *mon.Driver, replay string) int {
 			}
 		}
 	}
-	nOps := d.N(8000, 150000)
+	nOps := d.N(8000, 100000)
 	for i := 0; i < nOps; i++ {
 		addScript(scriptSpec{Op: opTemplates[i%len(opTemplates)], Args: []string{mon.Pick(rs, ids), mon.Pick(rs, ids), mon.Pick(rs, ids)}, Depth: depth, Variant: (i / len(opTemplates)) % 2}, 400)
 	}
 	flush(scrOpts, true)
 
 	// operations on really deep data and the special scripts: longer deadlines, default stack, one process each
-	deepDepths := []int{30000}
+	deepDepths := []int{10000}
 	if d.Thorough() {
 		deepDepths = []int{100000, 1000000}
 	}
@@ -553,7 +609,7 @@ func drive(d *mon.Driver, replay string) int {
 	}
 	for _, sp := range specialScripts(d.Thorough()) {
 		src := sp.Src
-		p.add("script-special", caseData{Src: &src, Class: "special:" + sp.Name, InputClass: sp.InputClass, Conc: sp.Conc, DeadlineMS: sp.DeadlineMS, FullStack: true})
+		p.add("script-special", caseData{Src: &src, Class: "special:" + sp.Name, InputClass: sp.InputClass, Conc: sp.Conc, DeadlineMS: sp.DeadlineMS, FullStack: true, Call: sp.Call})
 	}
 	runChunk(p, mon.PoolOpts{BatchSize: 1, Parallel: 6, BatchTimeout: 5 * time.Minute})
 
@@ -565,7 +621,7 @@ func drive(d *mon.Driver, replay string) int {
 		fmt.Println("development run restricted to families", os.Getenv("VERIF_C03_ONLY"))
 		return d.Finish(0, 0)
 	}
-	return d.Finish(d.N(60000, 1500000), d.N(20000, 200000))
+	return d.Finish(d.N(60000, 1500000), d.N(30000, 300000))
 }
 
 // operations applied to really deep data (quick: 3*10^4, thorough: 10^5 and 10^6 levels). Results are
@@ -623,6 +679,11 @@ func (k *checker) confirmAndReport(isReplay bool) {
 	}
 	sort.Strings(order)
 	d.Event("distinct-screening-signatures", len(order))
+	if os.Getenv("VERIF_C03_DEBUG") != "" {
+		for _, key := range order {
+			fmt.Fprintf(os.Stderr, "suspects %5d  %s   e.g. %s\n", len(groups[key].list), key, mon.Truncate(strings.ReplaceAll(sourceOf(&groups[key].list[0].Data), "\n", " ; "), 100))
+		}
+	}
 
 	// Representatives that were screened with the small stack are re-run alone under the default stack
 	// limit; cases that already ran alone with the default limit are confirmed by a second identical run.
@@ -670,7 +731,7 @@ func (k *checker) confirmAndReport(isReplay bool) {
 		s       suspect
 	}
 	results := map[string]outcome{}
-	k2 := &checker{d: d, samples: k.samples, perFam: k.perFam, crashed: k.crashed, okDeep: k.okDeep, sigs: k.sigs}
+	k2 := &checker{d: d, samples: k.samples, perFam: k.perFam, crashed: k.crashed, okDeep: k.okDeep, sigs: k.sigs, pending: k.pending}
 	d.RunPool(reruns, mon.PoolOpts{BatchSize: 1, Parallel: 4, NoRetry: true, BatchTimeout: 10 * time.Minute, AfterBatch: k2.afterBatch},
 		func(c mon.Case, res mon.Result) {
 			if res.Status == "done" {
@@ -760,6 +821,7 @@ func (k *checker) confirmAndReport(isReplay bool) {
 			normStage(s.Stage, s.Fatal), s.Fatal.Line, s.Exit, strings.Join(shortAll(s.Fatal.Repeating), ", "), s.Fatal.Innermost, orig.Data.Family, orig.Data.Class, note, len(src), mon.Truncate(src, 1500), mon.Truncate(s.Stderr, 2500))
 		k.violation(sig, detail, replayOf(orig.Data))
 	}
+	k.flushViolations()
 	k.summary()
 }
 
